@@ -63,7 +63,17 @@ def r_item(it):
     if k == "neg":
         return "!%s(%s)" % (it[1], ", ".join(r_term(t) for t in it[2]))
     if k == "disj":
-        return "(" + " | ".join(", ".join(r_item(i) for i in alt) for alt in it[1]) + ")"
+        alts = []
+        for alt in it[1]:
+            txt = ", ".join(r_item(i) for i in alt)
+            last = alt[-1] if alt else None
+            if last is not None and (last[0] in ("cond", "gen") or (last[0] == "clause" and last[3])):
+                # `.., if c | next` would be parsed with `|` as an operator of the condition: an alternative that
+                # ends with an expression becomes a nested one-alternative disjunction (arises only in hand
+                # expansions, where an invocation that was the last item of an alternative has been expanded)
+                txt = "(" + txt + ")"
+            alts.append(txt)
+        return "(" + " | ".join(alts) + ")"
     if k == "inv":
         return "m%d!(%s)" % (it[1], ", ".join(r_term(t) for t in it[2]))
     raise ValueError(it)
